@@ -88,7 +88,12 @@ def run_keyset(chk, cc, name, keys, tier, rng):
     try:
         res = X.run_single_path(fn, name="C07:" + name)
     except SymError as e:
-        chk.inconclusive(name, str(e))
+        # the code compares data where the statement has no case distinction: look at the real code on concrete tensors (among them
+        # cubic / isotropic ones, where Voigt and Reuss coincide) before calling it inconclusive
+        n0 = len(chk.violations) + len(chk.known_hits)
+        replay(chk, cc, keys, rng, "symbolic run stopped: %s" % e, quiet=True)
+        if len(chk.violations) + len(chk.known_hits) == n0:
+            chk.inconclusive(name, str(e))
         return
     except Exception as e:
         chk.note("%s: symbolic run raised %s: %s" % (name, type(e).__name__, e))
@@ -388,12 +393,23 @@ def replay_history(chk, cc, rng, what):
 _replayed = set()
 
 
-def replay(chk, cc, keys, rng, what):
-    """Concrete replay: random positive-definite tensor restricted to the key set, real numpy, independent formulas."""
-    from cij.util import c_
+def replay(chk, cc, keys, rng, what, quiet=False):
+    """Concrete replay: random positive-definite tensors restricted to the key set (generic, cubic, isotropic), real numpy, independent formulas."""
     tag = ",".join(keys)
     if tag in _replayed:
         return
+    nt, nv = 2, 2
+    for kind in ("generic", "cubic", "isotropic", "cubic", "isotropic"):
+        n0 = len(chk.violations) + len(chk.known_hits)
+        _replay_kind(chk, cc, keys, rng, what, kind, tag)
+        if len(chk.violations) + len(chk.known_hits) > n0:
+            return
+    if not quiet:
+        chk.harness_error("C07: '%s' did not reproduce on the real code" % what)
+
+
+def _replay_kind(chk, cc, keys, rng, what, kind, tag):
+    from cij.util import c_
     nt, nv = 2, 2
     A = numpy.array([[rng.uniform(-1, 1) for _ in range(6)] for _ in range(6)])
     Cm = A @ A.T + 6 * numpy.eye(6)
@@ -401,6 +417,15 @@ def replay(chk, cc, keys, rng, what):
         for j in range(6):
             if "c%d%d" % tuple(sorted((i + 1, j + 1))) not in keys:
                 Cm[i, j] = 0.0
+    if kind in ("cubic", "isotropic"):
+        # tensors whose Voigt and Reuss bulk moduli coincide mathematically (a comparison of the two is decided by rounding)
+        c11, c12 = rng.uniform(200, 400), rng.uniform(50, 150)
+        c44 = (c11 - c12) / 2 if kind == "isotropic" else rng.uniform(40, 140)
+        Cm = numpy.zeros((6, 6))
+        Cm[:3, :3] = c12
+        for i in range(3):
+            Cm[i, i] = c11
+            Cm[i + 3, i + 3] = c44
     Cm = Cm * 0.01
     calc = object.__new__(cc.Calculator)
     q = PC.Obj()
@@ -451,7 +476,7 @@ def replay(chk, cc, keys, rng, what):
             want = dict(KV=KV, KR=KR, KH=KH, GV=GV, GR=GR, GH=GH, vs=(GH * ryk / rho) ** 0.5, vp=((KH + 4 * GH / 3) * ryk / rho) ** 0.5)
             for k, w in want.items():
                 g = float(numpy.asarray(got[k])[it, iv])
-                if abs(g - w) > 1e-7 * abs(w):
+                if not abs(g - w) <= 1e-7 * abs(w):
                     _replayed.add(tag)
                     chk.violation("%s:deviates" % k, "%s = %.10g but the full-tensor value is %.10g (key set %s)" % (k, g, w, keys),
                                   dict(keys=keys, stiffness=Cf.tolist(), quantity=k))
@@ -462,7 +487,6 @@ def replay(chk, cc, keys, rng, what):
                 return
             if not (KR <= KH * (1 + 1e-12) <= KV * (1 + 1e-12) and GR <= GH * (1 + 1e-12) <= GV * (1 + 1e-12)):
                 chk.note("replay oracle: ordering check skipped (harness tensor)")
-    chk.harness_error("C07: '%s' did not reproduce on the real code" % what)
 
 
 def ordering(chk, cc, tier, rng):
